@@ -263,7 +263,10 @@ func headerString(f *Func) string {
 		fmt.Fprintf(buf, " partition %s", quote(f.Partition))
 	}
 	if f.Comdat != nil {
-		if f.Comdat.Name == f.Name() {
+		// Note: the shorthand stands for the comdat named as the function; compare
+		// with the name itself (Name() returns a display form and the ID of
+		// unnamed functions).
+		if !f.IsUnnamed() && f.Comdat.Name == f.GlobalName {
 			buf.WriteString(" comdat")
 		} else {
 			fmt.Fprintf(buf, " %s", f.Comdat)
